@@ -143,6 +143,9 @@ def _tn():
     t["names"] = {"p1": "rate", "p2": "learning_rate", "p3": "learning", "p4": "rate_decay", "kw": "rate_kwargs"}
     # prose that starts with a word the parsers treat specially ("Optional ..." wraps the type in Optional[..]): used only for
     # slots whose type already is Optional[..], where the wrapper must stay exactly one (see realise / a_prose)
+    # free-standing dashes (a spaced dash, a flattened bullet list, a range): a wrapped line may end in one
+    t["prose"] = dict(t["prose"], p1="name of dataset - one of - mnist - cifar", p3="number of samples per batch - in the range 1 - 500",
+                      ret="train and tests dataset splits - as a pair")
     t["prose_opt"] = {"p1": "Optional name prefix for the dataset", "p2": "(Optional) directory to look for models in",
                       "p3": "Optional number of samples per batch"}
     return t
